@@ -417,4 +417,8 @@ def cases():
              contexts=[{"name": "family", "parent": "vendor", "disables": ["heavy"]}, {"name": "vendor", "parent": "default", "disables": ["legacy_uart"]}],
              builders=[{"name": "board", "parent": "family", "disables": ["third"]}, {"name": "b0"}])
     out.append((f, {}))
+    # 55: source names with blanks and colons (ninja splits path lists there): escaped in every build statement,
+    #     so that two builders do not both "produce" the first word of the object path
+    mods = [{"name": "odd", "sources": ["my file.c", "a:b.c", "c$ d.c"], "srcdir": "dir with blank"}]
+    out.append((base(mods, [{"name": "app", "sources": ["main prog.c"], "depends": ["odd"]}]), {}))
     return out
